@@ -53,7 +53,7 @@ impl FileStorage {
     }
 
     fn apply_wal(file: &mut File, wal: &mut WriteAheadLog) -> Result<(), DbError> {
-        for record in wal.records()? {
+        for record in wal.records()?.into_iter().rev() {
             Self::apply_wal_record(file, record)?;
         }
 
